@@ -23,6 +23,9 @@ pub enum Unit14 {
     ZeroCols { forms: Vec<RowForm>, n_extra_write_row: usize },
     /// zero-column resultset on which `end_row()` is called `n` times in a loop
     ZeroColsBulk { n: u64 },
+    /// an ordinary resultset (`ncols` >= 1 LONG columns, `nrows` rows) between the completions: its
+    /// rows are not anybody's affected-rows count
+    ColSet { ncols: usize, nrows: usize },
 }
 
 #[derive(Clone, Debug, Serialize, Deserialize)]
@@ -70,6 +73,13 @@ fn program(case: &Case) -> Program {
                 }
                 steps.push(Step::Set { cols: vec![], rows, end: if last && case.direct_terminal { SetEnd::Finish } else { SetEnd::FinishOne } })
             }
+            Unit14::ColSet { ncols, nrows } => {
+                let cols: Vec<ColSpec> = (0..*ncols).map(|c| ColSpec::simple(&format!("c{}", c), T_LONG, 0)).collect();
+                let rows: Vec<RowProg> = (0..*nrows)
+                    .map(|r| RowProg { cells: (0..*ncols).map(|c| Val::plain(Base::I32((r * 3 + c) as i32))).collect(), form: if r % 2 == 0 { RowForm::WriteRow } else { RowForm::Cols }, offers: vec![] })
+                    .collect();
+                steps.push(Step::Set { cols, rows, end: if last && case.direct_terminal { SetEnd::Finish } else { SetEnd::FinishOne } })
+            }
             Unit14::ZeroColsBulk { n } => {
                 let rows = vec![RowProg { cells: vec![], form: RowForm::EndRowTimes(*n), offers: vec![] }, RowProg { cells: vec![], form: RowForm::WriteRow, offers: vec![] }];
                 steps.push(Step::Set { cols: vec![], rows, end: if last && case.direct_terminal { SetEnd::Finish } else { SetEnd::FinishOne } })
@@ -91,7 +101,7 @@ impl Prop for C14 {
         true
     }
     fn rule(&self) -> String {
-        "cases = chains of 1-4 completion units answered to COM_QUERY (text) or COM_STMT_EXECUTE (binary): (rows, last_insert_id) pairs from B x B with B = {0, 1, 250..254, 65535, 65536, 2^24-1, 2^24, 2^32-1, 2^32, 2^63, 2^64-2, 2^64-1} (enumerated) and random u64 pairs, via completed or complete_one chains (enumerated: chains of 255, 256, 257 units); zero-column resultsets with n in {0, 1, 2, 250, 251, 300, 70000} rows ended by end_row / write_row mixes, and with n+1 rows for n in {65535, 65536, 2^24-1, 2^24, 2^32-2, 2^32+4 (thorough: also 2^31-1, 2^31, 2^32-1, 2^33+1)} ended by end_row() in a loop. Oracle: the decoded OK (own decoder + mysql_common's OkPacket parser) carries exactly those two numbers; a zero-column set's OK carries affected-rows = number of rows the program ended. Non-trivial = a value >= 251 (beyond the 1-byte length encoding), a chain of >= 2, or a zero-column set with rows.".into()
+        "cases = chains of 1-4 completion units answered to COM_QUERY (text) or COM_STMT_EXECUTE (binary): (rows, last_insert_id) pairs from B x B with B = {0, 1, 250..254, 65535, 65536, 2^24-1, 2^24, 2^32-1, 2^32, 2^63, 2^64-2, 2^64-1} (enumerated) and random u64 pairs, via completed or complete_one chains (enumerated: chains of 255, 256, 257 units); zero-column resultsets with n in {0, 1, 2, 250, 251, 300, 70000} rows ended by end_row / write_row mixes, and with n+1 rows for n in {65535, 65536, 2^24-1, 2^24, 2^32-2, 2^32+4 (thorough: also 2^31-1, 2^31, 2^32-1, 2^33+1)} ended by end_row() in a loop; 1 chain in ~3 of length >= 2 also contains an ordinary resultset (1-3 columns, 0-300 rows) before or after the completions and zero-column sets (rows ended there are nobody's affected-rows). Oracle: the decoded OK (own decoder + mysql_common's OkPacket parser) carries exactly those two numbers; a zero-column set's OK carries affected-rows = number of rows the program ended. Non-trivial = a value >= 251 (beyond the 1-byte length encoding), a chain of >= 2, or a zero-column set with rows.".into()
     }
     fn exhaustive_note(&self, _tier: Tier) -> Option<String> {
         Some("B x B for single completions in text and binary mode".into())
@@ -117,7 +127,10 @@ impl Prop for C14 {
         };
         let units = (0..n)
             .map(|_| {
-                if g.chance(1, 3) {
+                if n >= 2 && g.chance(1, 5) {
+                    // an ordinary resultset in the chain: the rows it ends belong to no completion
+                    Unit14::ColSet { ncols: g.usize_in(1, 3), nrows: *g.pick(&[0usize, 1, 2, 3, 5, 250, 251, 300]) }
+                } else if g.chance(1, 3) {
                     let k = match g.weighted(&[3, 3, 2, 1]) {
                         0 => g.usize_in(0, 3),
                         1 => *g.pick(&[250usize, 251, 252, 300]),
@@ -163,6 +176,13 @@ impl Prop for C14 {
                 });
             }
         }
+        // an ordinary resultset with rows, then a zero-column set / a completion (and the reverse)
+        for bin in [false, true] {
+            for &(r, k) in &[(3usize, 2usize), (1, 0), (0, 2), (300, 1)] {
+                v.push(Case { units: vec![Unit14::ColSet { ncols: 2, nrows: r }, Unit14::ZeroCols { forms: vec![RowForm::WriteRow; k], n_extra_write_row: 0 }], bin, direct_terminal: true, error_end: None });
+                v.push(Case { units: vec![Unit14::ZeroCols { forms: vec![RowForm::Cols; k], n_extra_write_row: 0 }, Unit14::ColSet { ncols: 1, nrows: r }, Unit14::Count { rows: 5, id: 6 }, Unit14::ZeroCols { forms: vec![], n_extra_write_row: k }], bin, direct_terminal: false, error_end: None });
+            }
+        }
         // chains whose packet count crosses 2^8: every completion of a chain of 255-257 (thorough:
         // also 511-513) units must still arrive with its own numbers, and the next command's OK too
         let chains: &[usize] = match tier {
@@ -193,7 +213,15 @@ impl Prop for C14 {
             Unit14::Count { rows, id } => *rows >= 251 || *id >= 251,
             Unit14::ZeroCols { forms, n_extra_write_row } => forms.len() + n_extra_write_row > 0,
             Unit14::ZeroColsBulk { .. } => true,
+            Unit14::ColSet { .. } => false,
         });
+        let has_colset = case.units.iter().any(|u| matches!(u, Unit14::ColSet { .. }));
+        if has_colset {
+            ex.class("chain-with-an-ordinary-resultset");
+            if case.units.windows(2).any(|w| matches!(w[0], Unit14::ColSet { nrows, .. } if nrows > 0) && matches!(w[1], Unit14::ZeroCols { .. } | Unit14::ZeroColsBulk { .. })) {
+                ex.class("zero-column-set-right-after-a-resultset-with-rows");
+            }
+        }
         if let Some(n) = case.units.iter().filter_map(|u| if let Unit14::ZeroColsBulk { n } = u { Some(*n) } else { None }).max() {
             ex.class(if n >= 1 << 32 { "zero-column-set-with->=2^32-rows" } else if n >= 1 << 24 { "zero-column-set-with->=2^24-rows" } else { "zero-column-set-bulk" });
         }
@@ -250,6 +278,10 @@ impl Prop for C14 {
         }
         // second opinion on every OK packet of the reply
         let r = &d.replies[idx];
+        // (row packets of an ordinary resultset may begin with 0x00 too: no second opinion there)
+        if has_colset {
+            return ex;
+        }
         if let Expect::Units(want) = &exps[idx] {
             let oks: Vec<&Vec<u8>> = d.msgs[r.first_msg..r.first_msg + r.n_msgs].iter().map(|m| &m.payload).filter(|p| p.first() == Some(&0)).collect();
             for (p, w) in oks.iter().zip(want) {
